@@ -3,7 +3,8 @@
 (* function of the validation state of the answer and the request's flags   *)
 (* CD (checking disabled), AD (RFC 6840 5.7: "I understand AD") and the     *)
 (* EDNS DO bit (RFC 4035 3.2, 4.6; RFC 6840 5.7-5.9).                       *)
-States == {"Secure", "Insecure", "Bogus"}
+\* (Indeterminate: no trust anchor above the name - shown like Insecure)
+States == {"Secure", "Insecure", "Bogus", "Indeterminate"}
 
 ConnView(st, cd, ad, do) ==
   [ \* with CD the answer is passed on unvalidated, whatever it is
